@@ -33,7 +33,7 @@ PROP = {
         # the repaired defect D1 stays machine-checked
         "Old.equals_witness", "Old.equals_not_iff",
         # Copy() Equals the original and owns its metadata
-        "copy_equals", "copy_fresh_store", "copy_owns_metadata", "heap_copy_equals", "alias_shares", "reachable_invariants",
+        "copy_equals", "copy_fresh_store", "copy_owns_metadata", "copy_writable", "heap_copy_equals", "alias_shares", "reachable_invariants",
         # forwarder envelope
         "wrap_ok_iff", "envelope_round_trip", "envelope_round_trip_total", "envelope_round_trip_equals",
         "wrap_empty_destination", "publisher_round_trip",
@@ -61,8 +61,11 @@ PROP = {
             "(nil, empty, content, length) squared, exhaustively; plus seeded random messages (UUID/keys/values: any valid UTF-8 incl. empty, control, "
             "multi-byte, U+2028, <>&; payload: nil/empty/binary) each paired with a variant differing in exactly one component (13 kinds incl. keys renamed "
             "under an empty value, nil vs empty map/payload, reordered insertion). heap: all write-after-copy / write-after-shallow-copy patterns "
-            "(writer x key x value, observed through Get, Equals and the field dump) plus seeded random programs (<= 30 ops, <= 6 objects) over "
-            "NewMessage/&Message{}/Copy/shallow copy/Set/Get/Equals/field writes; after every op all objects are dumped. env/fpub/unenv: wrap -> generic "
+            "(writer x key x value, observed through Get, Equals and the field dump); Copy of every kind of original - NewMessage (empty map / entries), "
+            "struct literal with NIL Metadata, each also behind a shallow copy and behind the forwarder envelope (decoded message: \"metadata\": null stays nil) "
+            "- followed by a write to the copy and a write to the original in both orders, read back through Get/Equals, and a copy of the copy "
+            "(monitor rule copy_owns_metadata_nil_original: a write through a copy never panics) plus seeded random programs (<= 30 ops, <= 6 objects) over "
+            "NewMessage/&Message{}/Copy/shallow copy/envelope round trip/Set/Get/Equals/field writes, with nil-metadata originals copied and written; after every op all objects are dumped. env/fpub/unenv: wrap -> generic "
             "JSON view of the envelope -> unwrap for random messages x destination topics, forwarder.Publisher on a capturing publisher, 21 malformed "
             "envelopes; jenv: the JSON text of the envelope from the Lean model of encoding/json against the real encoder byte for byte (every ASCII "
             "character, U+2028/9, 2-4 byte runes, all payload lengths mod 3, all byte values); jdec: the Lean decoder against json.Unmarshal on those texts. "
